@@ -61,6 +61,10 @@ fn main() {
             let d: usize = args.get(2).and_then(|s| s.parse().ok()).unwrap_or(3);
             println!("{}", seqx::selftest(d));
         }
+        "longrun" => {
+            // longrun <spec> <pattern> <n>
+            println!("{}", seqx::longrun(&args[2], &args[3], args[4].parse().unwrap()));
+        }
         "overshoot" => {
             println!("{}", seqx::overshoot());
         }
@@ -73,6 +77,8 @@ fn main() {
                 seqx::replay(w)
             } else if w.starts_with("sketchx|") {
                 sketchx::replay(w)
+            } else if w.starts_with("longrun|") {
+                seqx::longrun_replay(w)
             } else if w.starts_with("cfgx|") {
                 let r = cfgx::run();
                 for v in &r.violations {
